@@ -4,17 +4,32 @@ buffer + pending flag, written after dasp_signal/src/lib.rs -- to two positions 
 source stream, for every capacity >= 1, every ring-buffer start, every schedule whose lead never
 exceeds the capacity).  Tie: correspondence between the model's executable definitions
 (Signal/ForkRun.v, evaluated by coqc) and the real Signal::fork / by_ref / by_rc branches on the same
-schedules; plus the property verdict evaluated directly on the implementation's observations."""
+schedules; plus the property verdict evaluated directly on the implementation's observations.
+Tie 2 (translator, lib/siggen_util.py): on every run translate/ring2coq.py regenerates coq/gen/RingGen.v from
+dasp_ring_buffer/src/lib.rs and translate/sig2coq.py regenerates coq/gen/ForkGen.v from dasp_signal/src/lib.rs
+(Signal::fork, Fork::A / B / by_rc / by_ref, the macro define_branch! expanded for its two invocations: next /
+pending_frames of the four branch types, which inherit trait Signal's default is_exhausted; ring-buffer calls are the
+generated ring methods, the source signal is abstract, RefCell / Rc sharing is state threading);
+Signal/ForkGenEquiv.v proves every generated definition equal to the hand model's on all inputs (c12_gen_agrees), so
+the schedule theorems are about the regenerated model (c12_gen_schedule).  When the translator rejects the source or a
+link of the chain no longer compiles (DESIGN 5.1/5.3) the first broken link is named and the correspondence is the
+search for a failing input: hand model vs crate, the property verdict, then the regenerated model (Signal/ForkGenRun.v)
+vs crate and vs hand model; a failing input gives VIOLATION with a replay file, none gives a VIOLATION ending
+no-failing-input-found that names the lemma / the translator error.
+TESTING ONLY: DASP_SIGNAL_RS / DASP_RING_RS / DASP_SIGNAL_HARNESS=scratch, see lib/siggen_util.py."""
 import json, os, itertools
 import framework as F
+import siggen_util as G
 
 PROP = "C12"
 META = dict(
-    technique="Coq refinement proof (Fork model -> two stream positions) + coqc-evaluated model vs crate correspondence",
-    text="Machine-checked (Coq 8.16.1) refinement of a model of dasp_signal's Fork (shared source with a pull counter, the Bounded ring-buffer model of C06 as the queue, the pending flag; next/pending_frames/by_ref/by_rc written after the source) to a pair of positions in the source stream: for every capacity >= 1, every ring-buffer start index and every finite schedule of operations whose lead never exceeds the capacity, each next() on branch X returns source frame p_X, the pull counter equals max(pa,pb), pending_frames(X) = max(pa,pb) - p_X and the queue holds source frames [min,max); re-splitting is the identity on the shared state; a step that exceeds the lead silently loses the oldest frame (proved, no panic). The model is tied to the crate by running its executable definitions inside coqc on the same schedules (all interleavings to length 12 for capacities 1..3, random 1000-step schedules with sign-flipping leads, by_ref / re-split / by_rc, finite sources, overrunning and malformed cases) and comparing every observation exactly.",
-    note="Trusted: Coq kernel; the hand-written model (RefCell/Rc sharing as one functional state, the source signal as a function nat -> frame with a counter, usize as nat) validated only through the correspondence; harness + python generators. Axioms: none.",
+    technique="Coq refinement proof (Fork model -> two stream positions) + model regenerated from the source by a translator (macro define_branch! expanded, on top of the regenerated ring buffer) and proved equal to the hand model + coqc-evaluated model vs crate correspondence",
+    text="Machine-checked (Coq 8.16.1) refinement of a model of dasp_signal's Fork (shared source with a pull counter, the Bounded ring-buffer model of C06 as the queue, the pending flag; next/pending_frames/by_ref/by_rc written after the source) to a pair of positions in the source stream: for every capacity >= 1, every ring-buffer start index and every finite schedule of operations whose lead never exceeds the capacity, each next() on branch X returns source frame p_X, the pull counter equals max(pa,pb), pending_frames(X) = max(pa,pb) - p_X and the queue holds source frames [min,max); re-splitting is the identity on the shared state; a step that exceeds the lead silently loses the oldest frame (proved, no panic). The model is tied to the crate by running its executable definitions inside coqc on the same schedules (all interleavings to length 12 for capacities 1..3, random 1000-step schedules with sign-flipping leads, by_ref / re-split / by_rc, finite sources, overrunning and malformed cases) and comparing every observation exactly. Second tie: translate/sig2coq.py, a strict translator for the Rust subset the adaptor's methods use, regenerates coq/gen/ForkGen.v from dasp_signal/src/lib.rs on every run (Signal::fork, Fork::A / B / by_rc / by_ref, the macro define_branch! expanded for its two invocations into next / pending_frames of the four branch types, trait Signal's default is_exhausted; ring-buffer calls go to the ring methods regenerated from dasp_ring_buffer/src/lib.rs, the source signal is abstract; anything outside its grammar, a new / missing / overridden method or impl, another item touching the adaptor's types is an error) and Coq proves each generated definition equal to the hand model's on all inputs (c12_gen_agrees), so the schedule theorems are about the regenerated model (c12_gen_schedule); a broken link of the chain is named and the correspondence becomes the search for a failing input.",
+    note="Trusted: Coq kernel; translate/sig2coq.py + translate/ring2coq.py and the vocabularies Signal/SigGenPrim.v, Ring/RingPrim.v (RefCell / Rc / & sharing as state threading: every handle is the one shared state, the borrow flag is not modelled; the source signal as an abstract total state machine), the caller-side glue Signal/ForkGenGlue.v; the hand-written model (RefCell/Rc sharing as one functional state, the source signal as a function nat -> frame with a counter, usize as nat) validated only through the correspondence; harness + python generators. Axioms: none.",
     design="6/C12")
 HEADER = "From Dasp Require Import Signal.ForkRun."
+GEN_HEADER = "From Dasp Require Import Signal.ForkRun Signal.ForkGenRun."
+GEN_SAMPLE = 4000      # cases kept for the search on the regenerated model when the translator tie is broken
 CHECK = "check"
 BIN = "c12"
 
@@ -271,16 +286,18 @@ def load_corpus():
 
 def main(rep, tier, seed):
     rng = F.Rng(seed)
-    info = F.standard_proof_phase(rep, PROP)
+    info = G.tie_start(rep, PROP, "fork")       # regenerate RingGen.v + ForkGen.v, self-test, proofs, audit
+    broken = info.get("broken")
     # the executable model is not in the closure of props/C12.v: build it on its own so that it
     # still runs (and the failing input can be searched for) when a proof is broken
     mok, mlog = F.coq_make("theories/Signal/ForkRun.vo")
     if not mok:
         rep.violation("model_build", {"kind": "the executable model does not compile", "log": mlog[-4000:]}, no_input=True)
         return finish(rep, info, 0, 0, {}, [])
-    ok, blog, binpath = F.harness_build(BIN)
+    ok, blog, binpath = G.harness_build(BIN)
     if not ok:
         rep.violation("harness_build", {"kind": "harness does not build against /repo", "log": blog[-4000:]}, no_input=True)
+        tie_broken_without_input(rep, info, None)
         return finish(rep, info, 0, 0, {}, [])
     corpus = load_corpus()
     items, n_exh = gen_cases(rng, tier)
@@ -289,7 +306,7 @@ def main(rep, tier, seed):
     K = 61
     items = [items[j] for i in range(K) for j in range(i, len(items), K)]
     outl, bad, errors = F.correspond(binpath, items, HEADER, CHECK, "c12")
-    rep.extra["build_profiles"] = F.profile_phase(rep, "c12", items, outl, profiles=("release",)) if not errors and len(outl) == len(items) else {}
+    rep.extra["build_profiles"] = F.profile_phase(rep, "c12", items, outl, profiles=("release",)) if not errors and len(outl) == len(items) and not G.TEST_HARNESS else {}
     if any(name == "harness" for name, _ in errors):
         idx = find_abort(binpath, items)
         if idx is not None:
@@ -342,7 +359,7 @@ def main(rep, tier, seed):
         _, model = F.coq_eval("c12", HEADER, f"run_case ({small['coq']})")
         rep.violation(f"case{idx}", {
             "kind": "model/implementation disagreement: dasp_signal's Fork does not behave as the model proved to give both branches the identical stream",
-            "case": {k: small[k] for k in KEYS if k in small},
+            "case": {k: small[k] for k in KEYS if k in small}, **({"why": broken} if broken else {}),
             "harness_line": small["line"], "implementation_observations": out, "model_observations": model[-3000:],
             "lead_respected": simulate(small)["valid"],
             "original_case_index": idx, "replay": "./check.py C12 --replay <this file>"})
@@ -363,6 +380,21 @@ def main(rep, tier, seed):
             "case": {k: small[k] for k in KEYS if k in small},
             "harness_line": small["line"], "implementation_observations": out,
             "original_case_index": idx, "replay": "./check.py C12 --replay <this file>"})
+    if broken:
+        search = {"hand_model_vs_crate_failing": len(bad), "property_verdict_failing": len(verdict_bad), "cases": len(items)}
+        found = bool(bad) or bool(verdict_bad)
+        if broken["stage"] not in ("translator", "generated_ring_model") and not errors:
+            def run_one(line):
+                rc, o, _ = F.run_bin(binpath, [line])
+                return o[0] if rc == 0 and len(o) == 1 else None
+            order = sorted(range(len(items)), key=lambda i: (i not in set(bad[:50]), len(items[i]["ops"]) > 400, i % 7, i))[:GEN_SAMPLE]
+            nc, nh, note = G.gen_search(rep, PROP, "fork", GEN_HEADER, [items[i] for i in order], [outl[i] for i in order],
+                                        broken, build, run_one, KEYS)
+            search.update(generated_vs_crate_failing=nc, generated_vs_hand_failing=nh, cases_on_the_generated_model=len(order), note=note)
+            found = found or bool(nc) or bool(nh)
+        info["search"] = search
+        if not found:
+            tie_broken_without_input(rep, info, search)
     dist = {"case_kinds": hist_kind, "capacity_histogram": hist_cap, "ops_histogram": hist_ops,
             "pending_flag_flips_per_case": hist_flips,
             "lead_respecting_wellformed_cases": n_valid, "of_which_lead_reaches_capacity": n_reach,
@@ -375,14 +407,25 @@ def main(rep, tier, seed):
     return finish(rep, info, len(items), len(nontriv), dist, samples, bad, len(verdict_bad))
 
 
+def tie_broken_without_input(rep, info, search):
+    broken = info.get("broken")
+    if broken:
+        rep.violation("translator_tie_broken", dict(
+            kind=broken["message"] + " -- and no failing input was found"
+                 + (": the hand model still agrees with the crate on every case" if search else " (the harness could not be built)")
+                 + (", and so does the regenerated model" if search and search.get("generated_vs_crate_failing") == 0 else ""),
+            search=search, **broken), no_input=True)
+
+
 def finish(rep, info, n, nontriv, dist, samples, bad=(), verdict_bad=0):
     th = info.get("theorems", [])
     cov = {
         "obligations": max(1, len(th)), "discharged": len(th) if info.get("coq_ok") else 0,
-        "checker_cmd": "make -f Makefile.coq props/C12.vo (coqc 8.16.1, full .vo) + Print Assumptions audit",
+        "checker_cmd": "translate/ring2coq.py /repo/dasp_ring_buffer/src/lib.rs > coq/gen/RingGen.v; translate/sig2coq.py fork /repo/dasp_signal/src/lib.rs > coq/gen/ForkGen.v; make -f Makefile.coq props/C12.vo (coqc 8.16.1, full .vo) + Print Assumptions audit",
+        "translator": info.get("translator", {}), "translator_tie_broken": info.get("broken"), "search": info.get("search"),
         "trusted_base": F.TRUSTED_COMMON + [
             "axioms: none (every theorem of props/C12.v is closed under the global context)",
-            "modelled, not verified: RefCell/Rc/& sharing of ForkShared as one functional state threaded through the branch operations; the source signal as a function nat -> frame with a pull counter; usize as nat; the Bounded model of Ring/Bounded.v (tied by C06)"],
+            "modelled, not verified: RefCell/Rc/& sharing of ForkShared as one functional state threaded through the branch operations; the source signal as a function nat -> frame with a pull counter; usize as nat; the Bounded model of Ring/Bounded.v (tied by C06)"] + G.TRUSTED,
         "theorems": th, "axioms_reported": info.get("axioms", []),
         "evaluations": n, "distinct_nontrivial": nontriv,
         "rule": "all 2^12 next_A/next_B interleavings for capacities 1..3 (ring-buffer start, storage kind, source kind, mono/stereo rotated), re-split/by_rc at every cut of all valid length-5 schedules, 160 random 1000-step lead walks between +-capacity (capacities 1..64) with re-splits and by_rc, finite sources, overrunning and malformed-constructor cases (thorough: plus every lead-respecting interleaving of length 16 for capacities 1..3 and 500 walks of 1500 steps); non-trivial = a well-formed lead-respecting schedule in which the lead reaches the capacity or the pending flag flips at least twice",
@@ -396,8 +439,29 @@ def finish(rep, info, n, nontriv, dist, samples, bad=(), verdict_bad=0):
 
 def replay(path):
     j = json.load(open(path))
+    if "case" not in j:
+        print("this replay file names a broken lemma / translator error and has no input; re-run ./check.py C12")
+        print(json.dumps({k: j.get(k) for k in ("kind", "stage", "broken_lemma", "file", "line", "coq_message", "message")}, indent=1))
+        return 1
     it = build(j["case"])
-    ok, blog, binpath = F.harness_build(BIN)
+    ok, blog, binpath = G.harness_build(BIN)
+    if j.get("model") == "generated":
+        tinfo, terr = G.regenerate("fork")
+        if terr:
+            print("translator:", terr)
+            return 1
+        F.coq_make(G.GROUPS["fork"]["run"])
+        rc, out, _ = F.run_bin(binpath, [it["line"]])
+        _, gmodel = F.coq_eval("c12", GEN_HEADER, f"gen_run_case ({it['coq']})")
+        _, hmodel = F.coq_eval("c12", GEN_HEADER, f"run_case ({it['coq']})")
+        print("case:", it["line"])
+        print("implementation:", out)
+        print("generated model:", gmodel)
+        print("hand model:", hmodel)
+        fn = "agree_gen" if j.get("against") == "hand" else "check_gen"
+        bad, errs = F.coq_check_cases("c12_replay", GEN_HEADER, fn, [f"({it['coq']}, {F.zlistlist(F.norm_obs_line(out[0]))})"])
+        print("AGREE" if not bad and not errs else "DISAGREE")
+        return 1 if bad or errs else 0
     rc, out, err = F.run_bin(binpath, [it["line"]])
     _, model = F.coq_eval("c12", HEADER, f"run_case ({it['coq']})")
     print("case:", it["line"])
